@@ -261,6 +261,14 @@ class WebSocket:
         socket: socket
             Pre-initialized stream socket.
         """
+        # A new connection starts with a clean receive state: nothing of a frame
+        # or a fragmented message the previous connection left unfinished.
+        self.frame_buffer = frame_buffer(
+            self._recv, self.frame_buffer.skip_utf8_validation
+        )
+        self.cont_frame = continuous_frame(
+            self.cont_frame.fire_cont_frame, self.cont_frame.skip_utf8_validation
+        )
         self.sock_opt.timeout = options.get("timeout", self.sock_opt.timeout)
         self.sock, addrs = connect(
             url, self.sock_opt, proxy_info(**options), options.pop("socket", None)
